@@ -41,8 +41,6 @@ pub const WRAP_POOL: &[u32] = &[
     100,
     10,
     200,
-    1,
-    0,
     1000,
     u32::MAX,
     15,
@@ -115,7 +113,10 @@ impl Cfg {
         let mut c = Cfg::default();
         if t.chance(5, 8) {
             c.wrap_column = if t.chance(1, 6) {
-                t.range(0, 250)
+                t.range(8, 250)
+            } else if t.chance(1, 40) {
+                // degenerate widths: the wrapper runs into its iteration limit on most lines
+                *t.pick(&[0, 1, 2, 5])
             } else {
                 *t.pick(WRAP_POOL)
             };
@@ -236,6 +237,10 @@ impl Failure {
             message,
             facts: vec![format!("clause:{clause}")],
         }
+    }
+    pub fn facts(mut self, f: &[String]) -> Failure {
+        self.facts.extend(f.iter().cloned());
+        self
     }
     pub fn fact(mut self, f: impl Into<String>) -> Failure {
         self.facts.push(f.into());
